@@ -479,6 +479,21 @@ def render_signature(
     return "\n".join(rendered_multi_lines)
 
 
+def _strip_module_prefixes(s: str, modules: Iterable[str]) -> str:
+    """Remove `module.` qualifiers from rendered annotations.
+
+    Only whole dotted names are stripped, preferring the longest module, in a
+    single pass: stripping `a.` must not touch `aa.C` or `b.a.C`, nor pre-empt
+    `a.b.` for a class of `a.b`, nor eat into what a previous strip left behind.
+    """
+    alternatives = "|".join(
+        re.escape(module) for module in sorted(modules, key=len, reverse=True)
+    )
+    if not alternatives:
+        return s
+    return re.sub(r"(?<![\w.])(?:" + alternatives + r")\.", "", s)
+
+
 class AttributeStub(Stub):
     def __init__(
         self,
@@ -491,9 +506,7 @@ class AttributeStub(Stub):
     def render(self, prefix: str = "") -> str:
         s = f"{prefix}{self.name}: {render_annotation(self.typ)}"
         # classes are imported by name into the stub (see build_module_stubs)
-        for module in get_imports_for_annotation(self.typ):
-            s = s.replace(module + ".", "")
-        return s
+        return _strip_module_prefixes(s, get_imports_for_annotation(self.typ))
 
     def __repr__(self) -> str:
         return f"AttributeStub({self.name}, {self.typ})"
@@ -522,8 +535,7 @@ class FunctionStub(Stub):
         s += render_signature(self.signature, 120 - len(s), prefix) + ": ..."
         # Yes, this is a horrible hack, but inspect.py gives us no way to
         # specify the function that should be used to format annotations.
-        for module in self.strip_modules:
-            s = s.replace(module + ".", "")
+        s = _strip_module_prefixes(s, self.strip_modules)
         if self.kind == FunctionKind.CLASS:
             s = prefix + "@classmethod\n" + s
         elif self.kind == FunctionKind.STATIC:
